@@ -128,7 +128,13 @@ func verifMixedRoot(s *Scorch, nsegs int) *IndexSnapshot {
 		ss := &SegmentSnapshot{id: id, stats: newFieldStats(), cachedDocs: &cachedDocs{cache: nil}, cachedMeta: newCachedMeta(), creator: "verif"}
 		ids := []byte{'a' + byte(i)}
 		if rt.Choice("persisted", 2) == 1 {
-			ss.segment = &verifPSeg{verifSeg{n: 1, idOf: ids, refs: 1, path: filepath.Join("/idx", zapFileName(id))}}
+			// the file of a persisted segment is whatever its Path says: normally zapFileName(id), but an
+			// index made by the offline builder (or renumbered on load) has files named otherwise
+			fid := id
+			if rt.Choice("odd_file_name", 2) == 1 {
+				fid = id + 16
+			}
+			ss.segment = &verifPSeg{verifSeg{n: 1, idOf: ids, refs: 1, path: filepath.Join("/idx", zapFileName(fid))}}
 		} else {
 			ss.segment = &verifUSeg{verifSeg{n: 1, idOf: ids, refs: 1}}
 		}
